@@ -352,6 +352,14 @@ def gamma(pred: Val, a: Val, b: Val) -> Val:
         return a
     if isinstance(pred, Const):
         return a if pred.v else b
+    # (v := environ.get(k)) is None ? d : v   ==   environ.get(k, d)
+    q, neg = (pred.args[0], True) if isinstance(pred, P) and pred.op == 'not' else (pred, False)
+    if isinstance(q, P) and q.op == 'isnone' and isinstance(q.args[0], Term) and q.args[0].head in ('lib:os.environ.get', 'lib:os.getenv') \
+            and q.args[0].kw('default') is None:
+        t = q.args[0]
+        none_branch, some_branch = (b, a) if neg else (a, b)
+        if veq(some_branch, t):
+            return Term(t.head, t.args, list(t.kwargs) + [('default', none_branch)], t.kind, t.uid, t.node)
     if isinstance(a, Num) and isinstance(b, Num) and (a.length is None) == (b.length is None) and (
             a.length is None or a.length == b.length):
         mm = _minmax_form(pred, a, b)
